@@ -89,7 +89,8 @@ def render_operand(i, op):
     dec = f"@{op['dec']} " if op["dec"] else ""
     body = dec + entry(nm["main"], op)
     if nm["first"]:
-        body = entry(nm["first"], op) + " | " + body
+        dec1 = f"@{op['dec1']} " if op.get("dec1") else ""
+        body = dec1 + entry(nm["first"], op) + " | " + body
     if nm["inj"]:
         body += f" @$({nm['inj']} x)"
     if op.get("wrap"):  # repair transform of the checker: the same bare command written explicitly as ![...]
@@ -111,6 +112,10 @@ def render(prog):
     chain = render_tree(prog["tree"], prog["ops"])
     if prog["stmt"] == "assign":
         s = "x = " + chain
+    elif prog["stmt"] == "list":  # the operand nested in a Python expression: same obligations as a statement
+        s = "x = [" + chain + "]"
+    elif prog["stmt"] == "call":
+        s = "str(" + chain + ")"
     elif prog["stmt"] == "if":
         return f"if {chain}:\n    pass\nafter\n"
     else:
@@ -163,6 +168,11 @@ def ref_once(prog, codes, R, C, ch, cblind=()):
             if op["form"] != "obj" or ch("cmdflag-obj", 2):
                 raise _Stop(rc)
         if rc_first and cflag and ch("cmdflag-stage", 2):
+            raise _Stop(None)
+        # "dec1" = a decorator on the FIRST stage of a 2-stage pipeline.  The pipeline's code is its last stage's and
+        # a decorator concerns its own command only, so it never changes how the last stage's failure is treated;
+        # whether @error_raise on a failing first stage raises is left open (fork).
+        if rc_first and op.get("dec1") == "error_raise" and ch("stage-error_raise", 2):
             raise _Stop(None)
         truth = rc == 0
         if consumed and op["form"] in ("out", "unc") and ch("value-truth", 2):
